@@ -853,6 +853,25 @@ func (c *EvalCtx) call(v *ECall) SV {
 			sfail("apply: multi-result callbacks are not supported")
 		}
 		return SV{t: r.T, typ: r.typ}
+	case "outer":
+		// outer(e): e evaluated in the frame that (transitively inlined) called this one: its locals and
+		// parameters by name. Only meaningful in contracts of functions that are declared inline.
+		if c.locals == nil || c.locals.parent == nil {
+			sfail("outer(...): there is no enclosing frame (the function is not being executed inline)")
+		}
+		p := c.locals.parent
+		n := *c
+		n.locals = p
+		n.env = p.env
+		n.lets = nil
+		if p.pre != nil {
+			n.old = p.pre // old(...) inside outer(...) is the caller's pre-state
+		}
+		if pc := c.x.frameContract(p); pc != nil {
+			pctx := c.x.ctxFor(pc, c.st, c.old, p.env, p.fn)
+			n.pkg, n.sf, n.lets, n.fn = pctx.pkg, pctx.sf, pctx.lets, pctx.fn
+		}
+		return n.eval(v.Args[0])
 	case "at":
 		// at(a, off, i): element i of the slice view (a, off) of a backing array; the index is built like
 		// the index of a real slice element (see ixT), so facts stated with at() and loads in the code meet
